@@ -29,7 +29,10 @@ theorem mocksAlloc_names (o : Ord) (fuel : Nat) (scope : List (Str × Obj)) :
       rcases kv with ⟨k, obj⟩
       cases obj with
       | notIface ts => simp [hs] at h
-      | iface msIn generic tps tn =>
+      | iface msIn generic tps tn ts =>
+        cases tn with
+        | false => simp [hs] at h
+        | true =>
         simp only [hs] at h
         cases hma : methodsAlloc o fuel r msIn with
         | error e => simp [hma] at h
